@@ -383,6 +383,24 @@ namespace plan
           t += s.text + "\n";
       return t;
     }
+    // a relaxation: one top-level constraint statement is left out. Every solution of the problem solves the relaxation too, so a
+    // solved problem must not turn unsolvable. Empty when there is no constraint statement
+    std::string variant_relaxed(uint64_t seed, std::string &dropped) const
+    {
+      std::vector<const Stmt *> as;
+      for (auto &s : m.stmts)
+        if (s.k == Stmt::ASSERT && !s.structural)
+          as.push_back(&s);
+      if (as.empty())
+        return std::string();
+      const Stmt *drop = as[sim::Rng(seed).derive("relax").below(as.size())];
+      dropped = drop->text;
+      std::string t = m.decl_text.empty() ? std::string() : m.decl_text.back();
+      for (auto &s : m.stmts)
+        if ((s.k == Stmt::DECL || s.k == Stmt::FORMULA || s.k == Stmt::DISJ || s.k == Stmt::ASSERT) && &s != drop)
+          t += s.text + "\n";
+      return t;
+    }
     // another equivalent formulation: one top-level fact is stated twice (under a second name, right after the original, every
     // parameter equated with the original's). The second copy can always be unified with the first, so the verdict must not change. Facts on reusable resources are left
     // alone (`Use` atoms never unify: stating one twice does double the usage). Empty when there is no such fact
@@ -1241,6 +1259,7 @@ namespace plan
         b->l.t.push_back({mpq_class(1), Path{it->local, a.param}});
         b->r.k = a.val.k;
         assert_stmt(b);
+        m.stmts.back().structural = true;
       }
       for (auto &a : m.preds[p].rparams)
         top.nums.push_back({it->local, a});
